@@ -1,7 +1,7 @@
 /*@harness
-{"tier":"quick","mode":"bounded(2 statements of 0..300 code bytes each, lines 1..1000, one source file; the failing pc is arbitrary)","tus":["lib/lpc/program/icode.c","src/simulate.c","lib/lpc/program.c"],"include_tu":["lib/lpc/program/icode.c"],"dfcc":false,
+{"tier":"quick","mode":"bounded(3 statements of 0..600 code bytes each, lines 1..1000, one source file; the failing pc is arbitrary)","tus":["lib/lpc/program/icode.c","src/simulate.c","lib/lpc/program.c"],"include_tu":["lib/lpc/program/icode.c"],"dfcc":false,
  "functions":["switch_to_line","find_line","translate_absolute_line","allocate_in_mem_block"],
- "flags":["--bounds-check","--pointer-check"],"unwind":7,"timeout":900,
+ "flags":["--bounds-check","--pointer-check"],"unwind":12,"timeout":900,
  "expect":["h_line_table_roundtrip.assertion","switch_to_line.pointer_dereference","find_line.pointer_dereference"],
  "native":null,
  "assumptions":["the generator protocol: switch_to_line(L) is called before the code of a statement on line L is emitted, and switch_to_line(-1) at the end (icode.c i_generate_* callers are not under contract)",
@@ -19,6 +19,8 @@
 main_options_t *g_main_options; static main_options_t G_opts;
 mem_block_t mem_block[NUMAREAS]; int current_block; char *prog_code, *prog_code_max;
 int debug_message_with_src(const char *a, const char *b, const char *c, int d, const char *e, ...) { return 0; }
+/* the line-number block is pre-sized in the harness: growth (realloc) must not be needed for 9 runs */
+void *realloc(void *p, size_t n) { V_ASSERT(0, "harness-sanity: line-number block grows although it was pre-sized"); V_STOP(); return p; }
 char *xalloc(size_t n) { char *r = malloc(n); V_ASSUME(r != 0); return r; }
 int __CPROVER_file_local_simulate_c_find_line(const char *p, const program_t *progp, char **ret_file, int *ret_line);
 
@@ -32,7 +34,7 @@ void h_line_table_roundtrip(void) {
   last_size_generated = 0; line_being_generated = 0;
   V_DECL(int, l1); V_DECL(int, l2); V_DECL(int, l3); V_DECL(int, s1); V_DECL(int, s2); V_DECL(int, s3);
   V_ASSUME(1 <= l1 && l1 <= 1000 && 1 <= l2 && l2 <= 1000 && 1 <= l3 && l3 <= 1000);
-  V_ASSUME(0 <= s1 && s1 <= 300 && 0 <= s2 && s2 <= 300 && s3 == 0);
+  V_ASSUME(0 <= s1 && s1 <= 600 && 0 <= s2 && s2 <= 600 && 0 <= s3 && s3 <= 600);
   switch_to_line(l1); prog_code += s1;
   switch_to_line(l2); prog_code += s2;
   switch_to_line(l3); prog_code += s3;
@@ -50,5 +52,5 @@ void h_line_table_roundtrip(void) {
   V_ASSERT(rc == 0, "a pc inside the program always has a line");
   V_ASSERT(line == want, "the reported line is the line of the statement whose code contains the pc (runs longer than 255 bytes are split, not lost)");
   V_ASSERT(file == fname, "the reported file is the program's source file");
-  V_COVER(s1 > 255 && off > 255 && off <= s1); V_COVER(s1 == 0 && off >= 1); V_COVER(off == total && s2 > 255);
+  V_COVER(s1 > 510 && off > 510 && off <= s1); V_COVER(s1 == 0 && s2 == 0 && off >= 1); V_COVER(off == total && s3 > 255);
 }
